@@ -197,6 +197,17 @@ def run_mc(work, prop, tier):
     return states, transitions
 
 
+def stall_reproduces(dagdrive, work, name, plan):
+    src = os.path.join(work, "tr", name + ".stall.json")
+    json.dump({"plan": plan}, open(src, "w"))
+    out = os.path.join(work, "tr", name + ".stall.ndjson")
+    p = subprocess.run([dagdrive, "rerun", "-in", src, "-out", out, "-times", "3"], stdout=subprocess.PIPE, stderr=subprocess.STDOUT, text=True, env=GOENV, timeout=900)
+    if p.returncode != 0:
+        return True
+    with open(out) as f:
+        return any('"ev":"hang"' in l for l in f)
+
+
 def reproduce_crash(dagdrive, work, name, plan):
     src = os.path.join(work, "tr", name + ".crash.json")
     json.dump({"plan": plan}, open(src, "w"))
@@ -360,6 +371,22 @@ def check(prop, tier, seed, work, replay, t0):
     known = load_findings()
     nviol, reported, notes, knownhits = 0, 0, 0, {}
     viols = []
+    # a run that the controller gave up on (stall / silence) counts only if the same plan stalls again when run alone
+    for r in results:
+        keep = []
+        for rj in r["rej"]:
+            if rj["event"].get("ev") == "hang" and r["plans"] and os.path.exists(r["plans"]):
+                plan = None
+                with open(r["plans"]) as f:
+                    for line in f:
+                        q = json.loads(line)
+                        if q["Run"] == rj["run"]:
+                            plan = q
+                if plan is not None and not stall_reproduces(dagdrive, work, r["name"], plan):
+                    log("note: run %d stalled under load but not when executed alone" % rj["run"])
+                    continue
+            keep.append(rj)
+        r["rej"] = keep
     for r in results:
         for cr in r["info"].get("crashes", []):
             # the process running Graph.Run died: Run did not finish (C16)
